@@ -1064,7 +1064,7 @@ func genRekey(r *vf.Rand, id int, op string, rel int, ex string) (Desc, bool) {
 		d.K = r.Range(1, d.J-1)
 	}
 	d.Prefix = d.J
-	d.Chunk = []int{2, 5, 16, 128}[r.Intn(4)]
+	d.Chunk = []int{8, 16, 64, 128}[r.Intn(4)] // a Reduce may be involved: the combiner wants a power of two
 	n := []int{2, 3, 4, 5, 7}[r.Intn(5)]
 	d.NIn = []int{n}
 	if op == "reshard" {
